@@ -288,6 +288,31 @@ fn fit(x: i128) -> Result<Cell, EvalErr> {
     }
 }
 
+/// Compares the exact values of an integer and a (non-NaN) float.
+pub fn cmp_int_float_exact(i: i64, f: f64) -> Ordering {
+    if f >= 9223372036854775808.0 {
+        return Ordering::Less;
+    }
+    if f < -9223372036854775808.0 {
+        return Ordering::Greater;
+    }
+    let t = f.trunc();
+    let ti = t as i64; // exact: |t| <= 2^63 and t is integral (t = -2^63 maps to i64::MIN)
+    match i.cmp(&ti) {
+        Ordering::Equal => {
+            let frac = f - t;
+            if frac > 0.0 {
+                Ordering::Less
+            } else if frac < 0.0 {
+                Ordering::Greater
+            } else {
+                Ordering::Equal
+            }
+        }
+        o => o,
+    }
+}
+
 /// Three-valued comparison. None = UNKNOWN.
 pub fn compare_cells(a: &Cell, b: &Cell) -> Result<Option<Ordering>, EvalErr> {
     Ok(match (a, b) {
@@ -296,10 +321,24 @@ pub fn compare_cells(a: &Cell, b: &Cell) -> Result<Option<Ordering>, EvalErr> {
         (Cell::Str(x), Cell::Str(y)) => Some(x.as_bytes().cmp(y.as_bytes())),
         (Cell::Float(_), Cell::Float(_)) | (Cell::Int(_), Cell::Float(_)) | (Cell::Float(_), Cell::Int(_)) => {
             let (x, y) = (cell_f64(a).unwrap(), cell_f64(b).unwrap());
-            match x.partial_cmp(&y) {
-                Some(o) => Some(o),
+            let o = match x.partial_cmp(&y) {
+                Some(o) => o,
                 None => return Err(EvalErr::Type("NaN comparison".into())),
+            };
+            // An integer beyond 2^53 against a float: comparing the exact values and comparing after conversion
+            // to f64 can disagree, and the property does not say which is meant. Such a comparison is outside
+            // the judged fragment (reported like a type error: the answer is not compared).
+            let exact = match (a, b) {
+                (Cell::Int(i), Cell::Float(f)) => Some(cmp_int_float_exact(*i, f.get())),
+                (Cell::Float(f), Cell::Int(i)) => Some(cmp_int_float_exact(*i, f.get()).reverse()),
+                _ => None,
+            };
+            if let Some(e) = exact {
+                if e != o {
+                    return Err(EvalErr::Type("integer/float comparison whose outcome depends on rounding the integer to f64".into()));
+                }
             }
+            Some(o)
         }
         _ => return Err(EvalErr::Type(format!("compare {:?} with {:?}", a, b))),
     })
